@@ -6,6 +6,7 @@ package main
 import (
 	"fmt"
 	"os"
+	"sort"
 	"strconv"
 	"strings"
 	"time"
@@ -50,9 +51,130 @@ func traceSpans(d *dataset, r int) []trace.C01Span {
 }
 
 type traceReader struct {
-	t  *trace.C13Table
-	sc []trace.C01Tag
-	d  *dataset
+	t     *trace.C13Table
+	sc    []trace.C01Tag
+	d     *dataset
+	order []int // pbx datasets: the series ids in stored (trace id) order
+	big   int   // pbx datasets: the id of the multi-block trace
+}
+
+func openTraceTable(d *dataset) (*trace.C13Table, string) {
+	segStart := time.Unix(0, d.t0-d.t0%(24*hourNs))
+	dir := scratchDir("t")
+	t := trace.C13Open(dir, trace.C13Cfg{Group: "c01", Grace: time.Hour, SegStart: segStart, SegEnd: segStart.Add(24 * time.Hour)})
+	t.SetNow(segStart.Add(48 * time.Hour))
+	return t, dir
+}
+
+func pbxSmall(n int) []series {
+	ss := make([]series, n)
+	for i := range ss {
+		ss[i] = series{Gen: "seq", Seq: []int{1 + i%5}, ID: i}
+	}
+	return ss
+}
+
+// expandPBX turns the descriptor {Gen "pbx", N = B blocks, D = delta} into the dataset it stands for: T single-span
+// traces t0..t(T-1), of which the one at position r1+delta of the stored (lexicographic) order is a B-block trace.
+// r1 = number of blocks listed by the first primary index block of the same batch made of small traces only (read
+// from the part, C01PrimaryLayout): the blocks stored before the big trace are identical in both batches, so the
+// roll-over of the real batch falls within one block of r1. T doubles from 1024 until the batch has a roll-over.
+func expandPBX(c *collector, d *dataset) (big int, order []int, ok bool) {
+	desc := d.ss[0]
+	sc := traceSchema(d.cols)
+	n, r1 := 1024, 0
+	for ; n <= 1<<16 && r1 == 0; n *= 2 {
+		probe := &dataset{name: d.name + "/probe", cols: d.cols, ss: pbxSmall(n), t0: d.t0, step: d.step}
+		t, dir := openTraceTable(probe)
+		t.C01Write(sc, traceSpans(probe, 0))
+		layout, err := t.C01PrimaryLayout()
+		t.Close()
+		_ = os.RemoveAll(dir)
+		if err != nil || len(layout) != 1 {
+			c.Harness = append(c.Harness, fmt.Sprintf("pbx probe: layout of %d parts, err %v", len(layout), err))
+			return 0, nil, false
+		}
+		if len(layout[0]) >= 2 && len(layout[0][0])+8 <= n && len(layout[0][0])+desc.D >= 1 {
+			r1 = len(layout[0][0])
+			break
+		}
+	}
+	if r1 == 0 {
+		c.Harness = append(c.Harness, "pbx probe: no primary index roll-over up to 65536 traces")
+		return 0, nil, false
+	}
+	order = make([]int, n)
+	for i := range order {
+		order[i] = i
+	}
+	sort.Slice(order, func(a, b int) bool { return "t"+strconv.Itoa(order[a]) < "t"+strconv.Itoa(order[b]) })
+	als := pbxAlignments(desc.N)
+	target := als[desc.D%len(als)]
+	c.Outcomes[fmt.Sprintf("trace-pbm/probe traces=%d blocks-in-first-primary-block=%d", n, r1)]++
+	for delta := -(desc.N + 4); delta <= 4; delta++ {
+		if r1+delta < 1 || r1+delta >= n {
+			continue
+		}
+		big = order[r1+delta]
+		cand := &dataset{name: d.name, cols: d.cols, ss: pbxSmall(n), t0: d.t0, step: d.step}
+		cand.ss[big] = series{Gen: "big", N: desc.N, ID: big}
+		t, dir := openTraceTable(cand)
+		t.C01Write(sc, traceSpans(cand, 0))
+		got := pbxAlign(c, t, big)
+		t.Close()
+		_ = os.RemoveAll(dir)
+		if len(got) == 1 && got[0] == target {
+			d.ss = cand.ss
+			return big, order, true
+		}
+	}
+	// not a verdict and not silently dropped: counted, listed in the evidence and in NOTES-round2.md
+	c.Outcomes[fmt.Sprintf("trace-pbm/alignment-not-produced blocks=%d align=%s (positions %d..%d of %d traces tried)", desc.N, target, r1-desc.N-4, r1+4, n)]++
+	return 0, nil, false
+}
+
+// pbxAlign tells how the blocks of the big trace are distributed over the primary index blocks of its part(s):
+// "inner:2+1" = two blocks at the end of one primary block and one at the head of the next; "head:3" = the trace
+// starts a primary block (not the first) and lies entirely in it; "inner:3" = entirely inside one.
+func pbxAlign(c *collector, t *trace.C13Table, big int) (out []string) {
+	layout, err := t.C01PrimaryLayout()
+	if err != nil {
+		c.Harness = append(c.Harness, "pbx layout: "+err.Error())
+		return nil
+	}
+	name := "t" + strconv.Itoa(big)
+	for _, part := range layout {
+		var counts []string
+		head := false
+		for pi, pb := range part {
+			k := 0
+			for _, id := range pb {
+				if id == name {
+					k++
+				}
+			}
+			if k > 0 {
+				if len(counts) == 0 && pi > 0 && pb[0] == name {
+					head = true
+				}
+				counts = append(counts, strconv.Itoa(k))
+			}
+		}
+		if len(counts) > 0 {
+			pos := "inner"
+			if head {
+				pos = "head"
+			}
+			out = append(out, pos+":"+strings.Join(counts, "+"))
+		}
+	}
+	return out
+}
+
+func pbxRecord(c *collector, t *trace.C13Table, big, blocks int, stage string) {
+	for _, a := range pbxAlign(c, t, big) {
+		c.Outcomes[fmt.Sprintf("trace-pbm/blocks=%d align=%s stage=%s", blocks, a, stage)]++
+	}
 }
 
 // obsToRows converts returned spans into seam-independent rows ("t<ID>" / "p<point>").
@@ -118,10 +240,32 @@ func (m *traceReader) fullCheck(c *collector, stage string, upTo int) {
 			m.run(c, query{Class: "traces/col=" + col.id(), Proj: []int{ci, payloadOnly[0]}, Sel: sel, Min: lo, Max: hi, UpTo: upTo})
 		}
 	}
+	if m.order != nil {
+		// pbx datasets: every trace within pbxWindow stored positions of the big trace (the roll-over is inside that
+		// window) alone, and every set of 2 / 3 traces that are neighbours in stored order there (a wanted neighbour
+		// makes the part iterator enter / leave a primary index block at a different place than the trace alone)
+		at := 0
+		for i, id := range m.order {
+			if id == m.big {
+				at = i
+			}
+		}
+		for i := at - pbxWindow; i <= at+pbxWindow; i++ {
+			for w := 1; w <= 3; w++ {
+				if i < 0 || i+w > len(m.order) {
+					continue
+				}
+				m.run(c, query{Class: fmt.Sprintf("trace-run%d/all", w), Proj: all, Sel: append([]int(nil), m.order[i:i+w]...), Min: lo, Max: hi, UpTo: upTo})
+			}
+		}
+		return
+	}
 	for id := range d.ss {
 		m.run(c, query{Class: "trace/all", Proj: all, Sel: []int{id}, Min: lo, Max: hi, UpTo: upTo})
 	}
 }
+
+const pbxWindow = 6
 
 const hourNs = int64(time.Hour)
 
@@ -132,19 +276,30 @@ func runTraceDataset(c *collector, d *dataset) {
 		}
 	}()
 	sc := traceSchema(d.cols)
+	big, bigBlocks := -1, 0
+	var order []int
+	if len(d.ss) == 1 && d.ss[0].Gen == "pbx" {
+		desc := d.ss[0]
+		c.descr = &desc
+		defer func() { c.descr = nil }()
+		var ok bool
+		if big, order, ok = expandPBX(c, d); !ok {
+			return
+		}
+		bigBlocks = desc.N
+		c.Counts["pbx_datasets"]++
+		c.Counts["pbx_traces"] += len(d.ss)
+	}
 	rounds := maxRounds(d)
 	all := allCols(d)
 	c.sample(d)
 	c.Nontriv += nontrivial(d)
-	segStart := time.Unix(0, d.t0-d.t0%(24*hourNs))
 	for variant := 0; variant < 2; variant++ {
 		if variant == 1 && rounds < 2 {
 			break
 		}
-		dir := scratchDir("t")
-		t := trace.C13Open(dir, trace.C13Cfg{Group: "c01", Grace: time.Hour, SegStart: segStart, SegEnd: segStart.Add(24 * time.Hour)})
-		t.SetNow(segStart.Add(48 * time.Hour))
-		m := &traceReader{t: t, sc: sc, d: d}
+		t, dir := openTraceTable(d)
+		m := &traceReader{t: t, sc: sc, d: d, order: order, big: big}
 		for r := 0; r < rounds; r++ {
 			spans := traceSpans(d, r)
 			if len(spans) == 0 {
@@ -162,12 +317,18 @@ func runTraceDataset(c *collector, d *dataset) {
 		}
 		if variant == 0 {
 			m.fullCheck(c, "mem", rounds-1)
+			if big >= 0 {
+				pbxRecord(c, t, big, bigBlocks, "mem")
+			}
 			// a second part, so that a merge always has two inputs
 			t.C01Write(sc, []trace.C01Span{{Trace: "dummy", SpanID: "p0", TS: d.t0, Payload: []byte("x")}})
 			if !t.Flush() {
 				c.Harness = append(c.Harness, "trace flush did not happen: "+d.name)
 			}
 			m.fullCheck(c, "flushed", rounds-1)
+			if big >= 0 {
+				pbxRecord(c, t, big, bigBlocks, "flushed")
+			}
 			if ids, mem := t.C01FileParts(); len(ids) >= 2 && mem == 0 {
 				c.stage = "merged"
 				if err := t.Merge(ids, "fast"); err != nil {
@@ -177,6 +338,9 @@ func runTraceDataset(c *collector, d *dataset) {
 					c.Harness = append(c.Harness, fmt.Sprintf("trace merge left %d parts: %s", len(ids2), d.name))
 				}
 				m.fullCheck(c, "merged", rounds-1)
+				if big >= 0 {
+					pbxRecord(c, t, big, bigBlocks, "merged")
+				}
 			} else {
 				c.Harness = append(c.Harness, fmt.Sprintf("trace: %d file parts, %d memory parts after flush: %s", len(ids), mem, d.name))
 			}
